@@ -258,10 +258,12 @@ func c10Jobs(thorough, race bool) []c10Job {
 		{"G-provider", [][]string{{"Tracer"}, {"Register"}, {"End"}}, false},
 		{"H-atlimit-end-error-event", [][]string{{"End"}, {"Error"}, {"Event"}}, true},
 		{"I-atlimit-end-link-attr", [][]string{{"End"}, {"Link"}, {"Attr"}}, true},
+		{"J-4threads-end-end-attr-event", [][]string{{"End"}, {"EndTS"}, {"Attr"}, {"Event"}}, false},
+		{"K-end-status-name-error", [][]string{{"End"}, {"Status", "Name"}, {"Error", "IsRec"}}, false},
 	}
 	p := 3
 	if thorough {
-		p = 4
+		p = 6
 	}
 	if race {
 		p-- // the race build is ~6x slower
